@@ -5,6 +5,6 @@ pid, wt, n = sys.argv[1], sys.argv[2], sys.argv[3]
 base = subprocess.run([sys.executable, '/verif/tools/mutant_prompt.py', pid, wt, n], capture_output=True, text=True).stdout
 used = json.load(open('/tmp/used_mech.json')).get(pid, [])
 print(base)
-print("\nEXTRA REQUIREMENT (round 3): the following change ideas have ALREADY been used for this property by earlier seeders — do not repeat them or close variants; find mechanisms of a DIFFERENT kind (other functions, other option combinations, other multi-step histories, other numeric regimes such as extreme scales / degenerate sizes / special dtypes / aliasing between objects):")
+print("\nEXTRA REQUIREMENT (later round): the following change ideas have ALREADY been used for this property by earlier seeders — do not repeat them or close variants; find mechanisms of a DIFFERENT kind (other functions, other option combinations, other multi-step histories, other numeric regimes such as extreme scales / degenerate sizes / special dtypes / aliasing between objects):")
 for u in used:
     print(" - " + u)
